@@ -19,8 +19,16 @@ Theorems over `Model/Subs.lean` (the repaired `im/subscriptions.rs`).
 * (6) `event_pending_iff`, `events_not_pending_after_keep`.
 * counter-examples for the two defects of the unrepaired code: `purgeOld_breaks_cov`,
   `reportCompleteOld_drops_wrong_sub`.
-* eventuality: `C13_full` is *stated* (needs a fairness hypothesis about the reporter task and the
-  transport, which are outside the model); `C13_eventual_partial` is what is proved.
+* eventuality: `C13_full` (along every fair schedule a subscription that owes a recorded change gets
+  it acknowledged, or ends, or the device restarts) is **proved**: `C13_full_holds`,
+  `C13_delivered_or_ended`; the fairness hypothesis `Subs.Fair` is explicit (one reporter task, the
+  reporter pass with its expiry sweep runs again and again while time advances, every begun priming /
+  report completes with keep / retry / drop, no subscription stays un-primed for ever, no clock
+  overflow) and satisfiable (`fair_example`).  `report_begins`: under `Subs.Idle` an owing subscription
+  of the table is picked up by the reporter (or removed).  `C13_eventual_partial`: one reporting cycle.
+* persisted subscriptions: `persist_mirrors_table`, `restart_resumes`, `restart_resumes_all`,
+  `resumed_reports_everything`; `resumed_never_expires` + `retry_keeps_unprimed`: why the fairness
+  clause `primes` is needed (finding `C13-resumed-never-expires`).
 -/
 namespace C13
 open Subs
@@ -593,6 +601,63 @@ theorem resumed_reports_everything (s : State) (now ev t : Nat) (x : Sub)
   intro c hc ep cl attr
   simp [State.shouldReportAttr, hc, h1]
 
+/-- **The reporter picks an owing subscription up** (what makes `C13_full` more than "it expires"):
+if the reporter's passes complete again and again while time advances (`Idle`), a subscription of the
+table that owes a recorded change does not sit in the table for ever — it leaves it, and
+(`Subs.leaves_table`) it can only leave it because the reporter begins a report for it whose snapshot
+is the current watermark (≥ the change, and `owed_in_report`: the report's filter selects it), or
+because a removal matches it, or by a restart. -/
+theorem report_begins {hz n : Nat} {sched : Nat → Op} (hidle : Idle hz n sched)
+    (hw : ∀ k, (stateAt hz n sched k).changed.nextId + 1 < U64) (k : Nat)
+    {x : Sub} (hx : x ∈ (stateAt hz n sched k).subs) {i : Nat} {p : Entry}
+    (hlog : (i, p) ∈ (stateAt hz n sched k).log) (hlt : x.seenAttr < i)
+    (hgate : x.reportAllowedAt hz < IMAX)
+    (hnr : ∀ j, k ≤ j → ∀ now ev, sched j ≠ .restart now ev) :
+    ∃ j, k ≤ j ∧ x ∈ (stateAt hz n sched j).subs ∧ x ∉ (stateAt hz n sched (j + 1)).subs ∧
+      ((∃ now ev, sched j = .report now ev ∧ ∃ c ∈ (stateAt hz n sched (j + 1)).ctxs,
+          c.sub = x ∧ i ≤ c.nextAttr) ∨
+       (∃ pr, sched j = .remove pr ∧ pr x = true)) := by
+  obtain ⟨k', now, ev, hk', hnow, hs, hnone⟩ := hidle k (x.reportAllowedAt hz) hgate
+  have hlg : ∀ d, (i, p) ∈ (stateAt hz n sched (k + d)).log := by
+    intro d
+    induction d with
+    | zero => exact hlog
+    | succ d ih =>
+      exact log_mono_step (sched (k + d)) (epoch_step _ _ (hnr (k + d) (by omega))) ih
+  have key : ∃ j, k ≤ j ∧ x ∈ (stateAt hz n sched j).subs ∧ x ∉ (stateAt hz n sched (j + 1)).subs := by
+    apply Classical.byContradiction
+    intro hno
+    have hstay : ∀ d, x ∈ (stateAt hz n sched (k + d)).subs := by
+      intro d
+      induction d with
+      | zero => exact hx
+      | succ d ih =>
+        apply Classical.byContradiction
+        intro h
+        exact hno ⟨k + d, by omega, ih, h⟩
+    have hxk' : x ∈ (stateAt hz n sched k').subs := by
+      have := hstay (k' - k); rwa [show k + (k' - k) = k' by omega] at this
+    have hlk' : (i, p) ∈ (stateAt hz n sched k').log := by
+      have := hlg (k' - k); rwa [show k + (k' - k) = k' by omega] at this
+    obtain ⟨_, hcov, _⟩ := inv_stateAt hz n sched hw k'
+    have hpend := owed_is_pending hcov hxk' hlk' hlt ev
+    have hrep := pending_is_reportable (stateAt hz n sched k').hz x now _ ev hpend
+      (by rw [hz_stateAt]; exact hnow)
+    exact report_progress ⟨x, hxk', hrep⟩ hnone
+  obtain ⟨j, hj, hin, hout⟩ := key
+  refine ⟨j, hj, hin, hout, ?_⟩
+  have hout' : x ∉ ((stateAt hz n sched j).step (sched j)).subs := hout
+  rcases leaves_table (sched j) hin hout' with ⟨nw, e, hop, c, hc, hcx, hcn⟩ | ⟨pr, hop, hpr⟩ | ⟨nw, e, hop⟩
+  · left
+    refine ⟨nw, e, hop, c, hc, hcx, ?_⟩
+    obtain ⟨hwf, _, _⟩ := inv_stateAt hz n sched hw j
+    have h3 := watermark_eq hwf.nextPos hwf.nextLt
+    have h4 := hwf.logBelow (i, p) (by have := hlg (j - k); rwa [show k + (j - k) = j by omega] at this)
+    simp only at h4
+    omega
+  · right; exact ⟨pr, hop, hpr⟩
+  · exact absurd hop (hnr j hj nw e)
+
 /-! ### The hypotheses of `C13_full` are satisfiable -/
 
 /-- a fair schedule: a subscriber is primed, a change is recorded, reported and acknowledged; from
@@ -729,7 +794,65 @@ example : ∃ (hz n : Nat) (sched : Nat → Op), Fair hz n sched ∧
     have h : ∀ x ∈ (fS 5).live, ¬ (x.id = 1 ∧ x.seenAttr < 1) := by decide
     exact h x hx ⟨hid, hlt⟩
 
-/-- **Proved part of the eventuality** (one reporting cycle, no fairness needed): in every reachable
+
+/-- like `fairSched`, then one expiry sweep and reporter passes that find nothing for ever -/
+def idleSched : Nat → Op
+  | 0 => .add 0 1 10 1 60 0
+  | 1 => .fin 1 .keep
+  | 2 => .change (P 1 2 3)
+  | 3 => .report 5000000 0
+  | 4 => .fin 1 .keep
+  | 5 => .remove (fun x => x.isExpired 1000000 (IMAX - 1))
+  | _ => .report (IMAX - 1) 0
+
+abbrev iS (k : Nat) : State := stateAt 1000000 1 idleSched k
+
+theorem idleSched_ge (k : Nat) (h : 6 ≤ k) : idleSched k = .report (IMAX - 1) 0 := by
+  unfold idleSched
+  split <;> first | rfl | omega
+
+theorem iS_ge (k : Nat) (h : 6 ≤ k) : iS k = iS 6 := by
+  have : ∀ j, iS (6 + j) = iS 6 := by
+    intro j
+    induction j with
+    | zero => rfl
+    | succ j ih =>
+      show (iS (6 + j)).step (idleSched (6 + j)) = iS 6
+      rw [ih, idleSched_ge (6 + j) (by omega)]
+      rfl
+  have := this (k - 6)
+  rwa [show 6 + (k - 6) = k by omega] at this
+
+theorem idle_example : Idle 1000000 1 idleSched := by
+  intro k T hT
+  refine ⟨k + 6, IMAX - 1, 0, by omega, by omega, idleSched_ge (k + 6) (by omega), ?_⟩
+  show ((iS (k + 6)).report (IMAX - 1) 0).2 = none
+  rw [iS_ge (k + 6) (by omega)]
+  rfl
+
+/-- the hypotheses of `report_begins` are satisfiable: after step 2 subscription 1 sits in the table
+and owes change 1 -/
+example : ∃ (hz n : Nat) (sched : Nat → Op) (k : Nat) (x : Sub) (i : Nat) (p : Entry),
+    Idle hz n sched ∧ (∀ k, (stateAt hz n sched k).changed.nextId + 1 < U64) ∧
+    x ∈ (stateAt hz n sched k).subs ∧ (i, p) ∈ (stateAt hz n sched k).log ∧ x.seenAttr < i ∧
+    x.reportAllowedAt hz < IMAX ∧ (∀ j, k ≤ j → ∀ now ev, sched j ≠ .restart now ev) := by
+  refine ⟨1000000, 1, idleSched, 3, sub1', 1, P 1 2 3, idle_example, ?_, by decide, by decide, by decide,
+    by decide, ?_⟩
+  · intro k
+    match k with
+    | 0 => decide
+    | 1 => decide
+    | 2 => decide
+    | 3 => decide
+    | 4 => decide
+    | 5 => decide
+    | k + 6 => show (iS (k + 6)).changed.nextId + 1 < U64; rw [iS_ge (k + 6) (by omega)]; decide
+  · intro j _ now ev h
+    unfold idleSched at h
+    split at h <;> cases h
+
+
+/-- **One reporting cycle** (no fairness needed): in every reachable
 state, for a subscription `x` of the table that owes change `(i, p)`:
 * it is pending, hence reportable once `report_allowed_at ≤ now`, a report is then begun and the
   reporter does not sleep past that instant;
